@@ -1,27 +1,8 @@
 (* SweepTdvp12Pre.v -- the mixed TDVP sweep with precompute (cached products of environments and MPO tensors) *)
 From Coq Require Import List ZArith Bool Lia ZifyBool.
-From Yv Require Import Sweep.Sweep Gen.SweepGen Sweep.SweepBase Sweep.SweepTdvpBody Sweep.SweepTdvpPreT1L Sweep.SweepTdvpPreT1F Sweep.SweepTdvp12.
+From Yv Require Import Sweep.Sweep Gen.SweepGen Sweep.SweepBase Sweep.SweepTdvpBody Sweep.SweepTdvpPreT1L Sweep.SweepTdvpPreT1F Sweep.SweepTdvp12 Sweep.SweepTdvp12PreA Sweep.SweepTdvp12PreB Sweep.SweepTdvp12PreC Sweep.SweepTdvp12PreD.
 Import ListNotations.
 Open Scope Z_scope.
-
-Lemma two_A_last_pre N n s : 1 <= n <= N - 2 -> PC N (n - 1) (n - 1) (n - 1) (n - 1) s ->
-  PC N n n n n (run_ops true N (tdvp_12site_two N n 1 ToLast ++ tdvp_12site_two_A N n 1 ToLast) s).
-Proof. intros Hn ((Hok & Hpc & HL & HR & HLs & HRs) & HCL & HCR). unfold tdvp_12site_two, tdvp_12site_two_A; cbn [app]. seq_PC Hok Hpc HCL HCR. Qed.
-Lemma two_C_last_pre N n s : 1 <= n <= N - 1 -> PC N (n - 1) (n - 1) (n - 1) (n - 1) s ->
-  PC N (Z.min (n + 1) (N - 1)) (n + 1) (n + 1) (n + 1) (run_ops true N (tdvp_12site_two N n 1 ToLast ++ tdvp_12site_two_C N n 1 ToLast) s).
-Proof.
-  intros Hn ((Hok & Hpc & HL & HR & HLs & HRs) & HCL & HCR). unfold tdvp_12site_two, tdvp_12site_two_C; cbn [app].
-  destruct (Z.eq_dec n (N - 1)) as [En|En]; [subst n|]; seq_PC Hok Hpc HCL HCR.
-Qed.
-Lemma two_A_first_pre N n s : 1 <= n <= N - 2 -> PC N (n + 1) (n + 1) (n + 1) (n + 1) s ->
-  PC N n n n n (run_ops true N (tdvp_12site_two N n 0 ToFirst ++ tdvp_12site_two_A N n 0 ToFirst) s).
-Proof. intros Hn ((Hok & Hpc & HL & HR & HLs & HRs) & HCL & HCR). unfold tdvp_12site_two, tdvp_12site_two_A; cbn [app]. seq_PC Hok Hpc HCL HCR. Qed.
-Lemma two_C_first_pre N n s : 0 <= n <= N - 2 -> PC N (n + 1) (n + 1) (n + 1) (n + 1) s ->
-  PC N (n - 1) (Z.max (n - 1) 0) (n - 1) (n - 1) (run_ops true N (tdvp_12site_two N n 0 ToFirst ++ tdvp_12site_two_C N n 0 ToFirst) s).
-Proof.
-  intros Hn ((Hok & Hpc & HL & HR & HLs & HRs) & HCL & HCR). unfold tdvp_12site_two, tdvp_12site_two_C; cbn [app].
-  destruct (Z.eq_dec n 0) as [En|En]; [subst n|]; seq_PC Hok Hpc HCL HCR.
-Qed.
 
 Definition InvLp (N : Z) (flag : bool) (n : Z) (s : st) : Prop :=
   if flag then 1 <= n <= N - 1 /\ PC N (n - 1) (n - 1) (n - 1) (n - 1) s else PC N (Z.min n (N - 1)) n n n s.
